@@ -53,7 +53,7 @@ ASSUMPTIONS = [
     'any one of them is accepted; an error in the unselected branch of IF must not surface (IF returns the other '
     'argument); errors among SWITCH cases and as ISEVEN/ISODD arguments are not demanded',
     'SWITCH equality is the spreadsheet = (C07: number < text < logical, hence TRUE<>1); 2 equals 2.0; text '
-    'equality is only used on identical / different lower-case strings; blank as SWITCH target is not demanded',
+    'equality is only used on identical / different lower-case strings in c12.switch; c12.switch_equality compares SWITCH with the = operator itself on 16 x 16 values incl. blanks',
     'dates: ISTEXT/ISLOGICAL/ISBLANK/ISERROR must be false, ISNUMBER is free; arrays as predicate arguments: only the '
     'relations (at most one of five, ISNONTEXT, ISERROR=ISERR or ISNA) and only when all results are logicals',
     'which of ISERR / ISNA is true for a given error code is not demanded (only ISERROR = ISERR or ISNA); the '
@@ -489,6 +489,33 @@ class Ifs(Sub):
         if bad:
             return fail('%s with conditions %r, values %r: expected %r, got %r' % (formula, conds, sent[:n], want, o),
                         want, o)
+        return None
+
+
+class SwitchEquality(Sub):
+    name = 'c12.switch_equality'
+    rule = ('"the first case equal to the target": equal as the = operator of the same library finds them - SWITCH(t,c,"hit","miss") = '
+            'IF(t=c,"hit","miss") for every ordered pair of 16 values (blank, 0, 0.0, -0.0, 1, 1.0, 2.5, "", "a", "A", "1", TRUE, FALSE, a '
+            'date-time, its serial, a one-cell range holding a blank), target and case through variables; non-trivial = all')
+    min_cases = 200
+    min_nontrivial = 200
+    POOL = [None, 0, 0.0, -0.0, 1, 1.0, 2.5, '', 'a', 'A', '1', True, False, {'$dt': '2020-01-01T00:00:00'}, 43831, [[None]]]
+
+    def cases(self, tier, unit):
+        for i in range(len(self.POOL)):
+            for j in range(len(self.POOL)):
+                yield [i, j]
+
+    def check(self, env, case):
+        t, c = env.dec(self.POOL[case[0]]), env.dec(self.POOL[case[1]])
+        env.nt()
+        vars_ = {'xt': t, 'xc': c}
+        a = env.evo('SWITCH(xt,xc,"hit","miss")', dict(vars_))
+        b = env.evo('IF(xt=xc,"hit","miss")', dict(vars_))
+        env.note('equal' if b == ['v', 'hit'] else 'different')
+        if a != b:
+            return fail('SWITCH(xt,xc,"hit","miss") = %r but IF(xt=xc,"hit","miss") = %r with xt = %r, xc = %r: the case is %s to the target under =' % (
+                a, b, t, c, 'equal' if b == ['v', 'hit'] else 'not equal'), b, a)
         return None
 
 
@@ -1030,4 +1057,4 @@ class LogicScale(Sub):
         return out
 
 
-SUBS = [ConnFlat(), ConnNested(), NotIf(), OneCellArgs(), Ifs(), Switch(), ErrorConditions(), Predicates(), Parity(), LogicScale()]
+SUBS = [SwitchEquality(), ConnFlat(), ConnNested(), NotIf(), OneCellArgs(), Ifs(), Switch(), ErrorConditions(), Predicates(), Parity(), LogicScale()]
